@@ -3,3 +3,4 @@ import BufModel.Bucket
 import BufModel.Faults
 import BufModel.Cache
 import BufModel.Token
+import BufModel.Parallel
